@@ -24,7 +24,7 @@ from .cdef import Contract, LoopSpec  # noqa: E402,F401
 
 SPEC_PRIM_NAMES = {'be', 'le', 'sl', 'cat', 'low', 'shr', 'pow2', 'tb', 'tl', 'bat', 'rpow', 'rpow2', 'bfind',
                    'band', 'bor', 'at', 'toreal', 'is_int_valued', 'decode', 'decodable', 'has_key', 'pv',
-                   'kind_of', 'raw_of', 'val_of', 'keys_of', 'append', 'cls_is', 'warned', 'i2r', 'src_T', 'src_R', 'coerce_like', 'coercible', 'comparable', 'cap', 'mset', 'mdel', 'events', 'events0', 'lcat', 'kind_is', 'ieee', 'feq'}
+                   'kind_of', 'raw_of', 'val_of', 'keys_of', 'append', 'cls_is', 'warned', 'i2r', 'src_T', 'src_R', 'coerce_like', 'coercible', 'comparable', 'cap', 'mset', 'mdel', 'events', 'events0', 'lcat', 'kind_is', 'ieee', 'feq', 'bound'}
 
 
 class Registry:
@@ -369,11 +369,14 @@ def parse_expr(s):
 
 def eval_spec_value(I, expr, frame):
     saved = I.spec
+    saved_fr = getattr(I, 'spec_frame', None)
     I.spec = True
+    I.spec_frame = frame
     try:
         return I.eval(parse_expr(expr), frame)
     finally:
         I.spec = saved
+        I.spec_frame = saved_fr
 
 
 def eval_spec(I, expr, frame, label=''):
